@@ -221,6 +221,63 @@ Example C17_generated_nonvacuous :
   BlockRange_Gap (mkBlockRange 0 5) (mkBlockRange 6 (U64 - 1)) = mkBlockRange 0 0.
 Proof. split; vm_compute; reflexivity. Qed.
 
+(* Gen/GenBuildParams.v is GENERATED from aggsender/types/certificate_build_params.go on every run: Range, the three counts,
+   EstimatedSize (float64 accumulation in source order; the constants 0.09 KB, 2.8 KB, 0.07 KB, 10 KB and claimSizeFactor are
+   evaluated exactly from the Go constant declarations and rounded once), IsEmpty, IsARetry, MaxDepositCount, with a pointer receiver
+   that may be nil where the Go method tests it. `abs` reads a generated record as the model's `params`. The functions are the
+   model's for every value, so the range / limit theorems above - stated for ANY size function - hold in particular for the
+   translated EstimatedSize, and what the model calls `range_cut` is the translated Range. *)
+From Verif Require Base.GoNum Gen.GenBuildParams Proofs.GenAgreeBuildParams.
+Theorem C17_generated_Range_is_model : forall (c : GenBuildParams.CertificateBuildParams) (f t : N),
+  match range_cut (GenAgreeBuildParams.abs c) f t with
+  | Ok p => exists c', GenBuildParams.CertificateBuildParams_Range c f t = (Some c', GoNum.EOK) /\ GenAgreeBuildParams.abs c' = p
+  | Err _ => GenBuildParams.CertificateBuildParams_Range c f t = (None, GoNum.EFail)
+  end.
+Proof. exact GenAgreeBuildParams.Range_agree. Qed.
+(* ... and it keeps the selected bridges and claims WHOLE and in order (the elements of the generated records, not their abstraction) *)
+Theorem C17_generated_Range_keeps_elements_whole : forall (c : GenBuildParams.CertificateBuildParams) (f t : N),
+  GenBuildParams.CertificateBuildParams_Range c f t =
+  if (GenBuildParams.CertificateBuildParams_FromBlock c =? f) && (GenBuildParams.CertificateBuildParams_ToBlock c =? t) then (Some c, GoNum.EOK)
+  else if (f <? GenBuildParams.CertificateBuildParams_FromBlock c) || (GenBuildParams.CertificateBuildParams_ToBlock c <? t) then (None, GoNum.EFail)
+  else if t <? f then (None, GoNum.EFail)
+  else (Some (GenBuildParams.mkCertificateBuildParams f t
+                (filter (GenAgreeBuildParams.in_rng_b f t) (GenBuildParams.CertificateBuildParams_Bridges c))
+                (filter (GenAgreeBuildParams.in_rng_c f t) (GenBuildParams.CertificateBuildParams_Claims c))
+                (GenBuildParams.CertificateBuildParams_RetryCount c) (GenBuildParams.CertificateBuildParams_LastSentCertificate c)
+                (GenBuildParams.CertificateBuildParams_CertificateType c)), GoNum.EOK).
+Proof. exact GenAgreeBuildParams.Range_closed_form. Qed.
+Theorem C17_generated_EstimatedSize_is_model : forall c : GenBuildParams.CertificateBuildParams,
+  (Z.of_nat (List.length (GenBuildParams.CertificateBuildParams_Claims c)) * 200 < 9223372036854775808)%Z ->
+  GenBuildParams.CertificateBuildParams_EstimatedSize (Some c) = estimated_size (GenAgreeBuildParams.abs c).
+Proof. exact GenAgreeBuildParams.EstimatedSize_agree. Qed.
+Theorem C17_generated_counts_are_model : forall c : GenBuildParams.CertificateBuildParams,
+  GenBuildParams.CertificateBuildParams_NumberOfBridges (Some c) = Z.of_N (number_of_bridges (GenAgreeBuildParams.abs c)) /\
+  GenBuildParams.CertificateBuildParams_NumberOfClaims (Some c) = Z.of_N (number_of_claims (GenAgreeBuildParams.abs c)) /\
+  GenBuildParams.CertificateBuildParams_NumberOfBlocks (Some c) = number_of_blocks (GenAgreeBuildParams.abs c) /\
+  GenBuildParams.CertificateBuildParams_IsEmpty (Some c) = is_empty_cert (GenAgreeBuildParams.abs c) /\
+  GenBuildParams.CertificateBuildParams_IsARetry (Some c) = is_retry (GenAgreeBuildParams.abs c).
+Proof.
+  intros c. exact (conj (GenAgreeBuildParams.NumberOfBridges_agree c) (conj (GenAgreeBuildParams.NumberOfClaims_agree c)
+    (conj (GenAgreeBuildParams.NumberOfBlocks_agree c) (conj (GenAgreeBuildParams.IsEmpty_agree c) (GenAgreeBuildParams.IsARetry_agree c))))).
+Qed.
+Theorem C17_generated_nil_receiver : GenBuildParams.CertificateBuildParams_NumberOfBridges None = 0%Z /\
+  GenBuildParams.CertificateBuildParams_NumberOfClaims None = 0%Z /\ GenBuildParams.CertificateBuildParams_NumberOfBlocks None = 0%Z /\
+  GenBuildParams.CertificateBuildParams_EstimatedSize None = 0 /\ GenBuildParams.CertificateBuildParams_IsARetry None = false /\
+  GenBuildParams.CertificateBuildParams_MaxDepositCount None = 0.
+Proof. exact GenAgreeBuildParams.nil_receiver_counts. Qed.
+(* MaxDepositCount (what getNewLocalExitRoot asks the exit tree for) = the deposit count of the LAST bridge of the list *)
+Theorem C17_generated_MaxDepositCount_is_last : forall c : GenBuildParams.CertificateBuildParams,
+  (Z.of_nat (List.length (GenBuildParams.CertificateBuildParams_Bridges c)) < 9223372036854775808)%Z ->
+  GenBuildParams.CertificateBuildParams_MaxDepositCount (Some c) =
+  match GenAgreeBuildParams.last_opt (GenBuildParams.CertificateBuildParams_Bridges c) with
+  | Some b => GenBuildParams.Bridge_DepositCount b | None => 0 end.
+Proof. exact GenAgreeBuildParams.MaxDepositCount_agree. Qed.
+(* the size the real code reported for 7 bridges + 1 claim (pp): 3583, one below the exact rational total 3584 *)
+Example C17_generated_EstimatedSize_rounding :
+  GenBuildParams.CertificateBuildParams_EstimatedSize (Some (GenBuildParams.mkCertificateBuildParams 1 1
+     (repeat (GenBuildParams.mkBridge 1 [] 0) 7) [GenBuildParams.mkClaim 1 []] 0%Z None 1)) = 3583.
+Proof. vm_compute. reflexivity. Qed.
+
 (* Print Assumptions walks the whole dependency cone each time (0.8 s per call here); the theorems are therefore
    grouped in four tuples, the assumptions of a tuple being the union of the assumptions of its components *)
 Definition C17_all_range := (C17_range_is_filter, C17_range_strict_is_filter, C17_range_cases).
@@ -236,3 +293,6 @@ Print Assumptions C17_all_adapt.
 Print Assumptions C17_all_gap.
 Print Assumptions C17_generated_gap_is_model.
 Print Assumptions C17_generated_gap_empty_iff_touching.
+Definition C17_all_generated_params := (C17_generated_Range_is_model, C17_generated_Range_keeps_elements_whole, C17_generated_EstimatedSize_is_model,
+  C17_generated_counts_are_model, C17_generated_nil_receiver, C17_generated_MaxDepositCount_is_last).
+Print Assumptions C17_all_generated_params.
